@@ -137,12 +137,19 @@ func (r Record) Position(p int) int64 {
 }
 
 func (r Record) position(p int) int64 {
+	if r.BasesPerLine == 0 {
+		// A record without sequence data has no lines.
+		return r.Start
+	}
 	return r.Start + int64(p/r.BasesPerLine*r.BytesPerLine+p%r.BasesPerLine)
 }
 
 // endOfLineOffset returns the number of bytes until the end of the line
 // holding position p.
 func (r Record) endOfLineOffset(p int) int {
+	if r.BasesPerLine == 0 {
+		return 0
+	}
 	if p/r.BasesPerLine == r.Length/r.BasesPerLine {
 		return r.Length - p
 	}
